@@ -17,12 +17,13 @@ WHAT IS PROVED
   DISPROVED       ryw for the code as it is: `ryw_false`; one evaluated witness per finding class KF-C07-1 … 6 in
                   `findings_witnessed` (known_findings.d/C07.json)
   `_partial`      ryw_partial: all seven read-type operations, through the cache or any ok child view, after any
-                  history of WriteFile / Writer / MkdirAll and of Remove / RemoveAll of nodes that exist only in the
-                  buffer, in which every operation also succeeds when applied directly — i.e. under the negation of the
+                  history of WriteFile / Writer / MkdirAll / CopyFile and of Remove / RemoveAll of nodes that exist only
+                  in the buffer, in which every operation also succeeds when applied directly — i.e. under the negation of the
                   defect predicates KF-C07-1…5; the remaining hypothesis `hnc` is the negation of KF-C07-6.
 
-NOT PROVED: "copy source" (a copy reads what the direct tree holds) is covered only negatively (KF-C07-4, KF-C06-12)
-and by the correspondence; `ryw_partial` does not include Copy* in its histories.
+"Copy source": on the class a CopyFile through the cache copies exactly the data the direct tree holds at the source
+(it is inside `ryw_partial`'s histories: `vinv_copyFile`); Copy / CopyDirectory of directories are not (KF-C07-4,
+KF-C06-4) and are covered by the correspondence only.
 -/
 import Goat.Proofs.CacheWitness
 
@@ -79,7 +80,7 @@ theorem findings_witnessed :
   refine ⟨⟨?_, ?_, ?_⟩, ⟨?_, ?_, ?_⟩, ⟨?_, ?_, ?_, ?_⟩, ⟨?_, ?_, ?_⟩, ⟨?_, ?_, ?_⟩, ⟨?_, ?_, ?_⟩⟩ <;> decide
 
 /-- READ-YOUR-WRITES ON THE CLASS.  On any well-formed initial remote, after any history (any length, any
-spellings, through the cache or ok child views) of WriteFile / Writer / MkdirAll and of Remove / RemoveAll of nodes
+spellings, through the cache or ok child views) of WriteFile / Writer / MkdirAll / CopyFile and of Remove / RemoveAll of nodes
 that do not exist on the remote, in which every operation also succeeds when applied directly: every operation
 succeeded through the cache too, and EVERY read-type operation (IsExist, IsFile, IsDir, ReadFile, Reader, ReadDir,
 Lstat; any spelling) through the cache or any ok child view rooted at `b` answers exactly what the specification
